@@ -248,7 +248,7 @@ def limbs_of(x):
 
 V("ctor_vect", ["limbs"], lambda *l: sum(v << (64 * i) for i, v in enumerate(l)), gen=lambda rng: gen_limbs(rng))
 V("cast_vect", ["I"], lambda x: limbs_of(x))
-V("cast_vect@roundtrip", ["I"], lambda x: abs(x), oracle_only=True)
+V("cast_vect@roundtrip", ["I"], lambda x: abs(x), model="vect_roundtrip")
 nlimbs = lambda x: len(limbs_of(x))
 V("size", ["I"], nlimbs)
 V("bitsize", ["I"], lambda x: max(1, abs(x).bit_length()))
@@ -479,17 +479,19 @@ def o_logp(a, p):
 
 def fix_logp(rng, a):
     x, p = a
-    p = rng.choice([2, 3, 10, 7, 2**16, 2**32 + 15]) if rng.chance(2, 3) else abs(p) % 2**70 + 2
+    p = rng.choice([2, 3, 10, 7, 2**16, 2**32 + 15, 2**64, 2**64 + 1]) if rng.chance(2, 3) else abs(p) % 2**70 + 2
     x = abs(x)
-    if rng.chance(1, 3):
-        k = rng.range(1, 30)
-        x = p**k + rng.choice([0, -1, 1])
+    if rng.chance(2, 3):        # exact powers, in particular p^(2^j) (the squaring chain), and their neighbours
+        k = rng.choice([1, 2, 4, 8, 16, 32]) if rng.chance(1, 2) else rng.range(1, 40)
+        if p > 2**40:
+            k = min(k, 9)
+        x = p**k + rng.choice([0, 0, -1, 1])
     if x < p:
         x = p + x     # logp is exercised on its domain a >= p >= 2 (for a < p the loop structure returns 1)
     return [x, p]
 
 
-forms("logp", ["dom"], ["N", "N"], o_logp, fix=fix_logp, oracle_only=True)
+forms("logp", ["dom"], ["N", "N"], o_logp, fix=fix_logp)
 V("fact", ["fa_u64"], lambda l: math.factorial(l), oracle_only=True)
 V("swap", ["I", "I"], lambda a, b: [b, a], oracle_only=True)
 
@@ -501,7 +503,7 @@ def o_pp(P, Q):
     return U
 
 
-V("pp", ["P", "P"], o_pp, fix=lambda rng, a: [a[0] * rng.choice([1, 2, 6, 12, 2**70]), a[1] if rng.chance(1, 2) else rng.choice([2, 6, 30, 2**64])], oracle_only=True)
+V("pp", ["P", "P"], o_pp, fix=lambda rng, a: [a[0] * rng.choice([1, 2, 6, 12, 2**70]), a[1] if rng.chance(1, 2) else rng.choice([2, 6, 30, 2**64])])
 
 
 def o_perfect(a):
